@@ -86,6 +86,8 @@ func scenFold(out *scenOut, r *rng, thorough bool) {
 		}
 	}
 	kindsReachUpdate(out)
+	sendsAcrossExec(out, "nil")
+	sendsAcrossExec(out, "blocking")
 	for _, end := range []string{"order", "kill"} {
 		for _, procs := range []int{1, 4} {
 			runtime.GOMAXPROCS(procs)
@@ -485,6 +487,8 @@ func scenCmds(out *scenOut, r *rng, thorough bool) {
 	for _, shape := range []string{"returned-twice", "twice-in-one-tree", "batchmsg-sent-twice"} {
 		batchReuse(out, shape)
 	}
+	rawBatchNil(out, false)
+	rawBatchNil(out, true)
 }
 
 // batchReuse: the SAME Batch command value (or the same BatchMsg value) occurs more than once:
@@ -1766,5 +1770,138 @@ func filterQuitParked(out *scenOut) {
 	}
 	if got := errClass(run.err); got != "nil" {
 		out.fail(finding{Property: "C04", Class: "new", What: "wrong Run result", Input: desc, Expected: "nil", Observed: got})
+	}
+}
+
+// rawBatchNil: a BatchMsg built by hand (or returned by a command) may contain nil entries; they
+// are skipped, and the other commands of the batch run once and deliver their results once.
+func rawBatchNil(out *scenOut, nested bool) {
+	ctl := newRecCtl()
+	var ran [3]int32
+	mk := func(k int, id string) tea.Cmd {
+		return func() tea.Msg { atomic.AddInt32(&ran[k], 1); return cmdMsg{id} }
+	}
+	a, b, c := mk(0, "na"), mk(1, "nb"), mk(2, "nc")
+	if nested {
+		inner := func() tea.Msg { return tea.BatchMsg{b, nil, c} }
+		ctl.initCmd = tea.Batch(a, nil, inner)
+	} else {
+		ctl.initCmd = func() tea.Msg { return tea.BatchMsg{nil, a, nil, b, c, nil} }
+	}
+	run := startProgram(ctl, nil, tea.WithInput(nil), tea.WithoutSignalHandler())
+	desc := fmt.Sprintf("a hand-built BatchMsg with nil entries (nested=%t) produced by Init's command", nested)
+	ok := waitFor(3*time.Second, func() bool {
+		return ctl.log.has("update-exit", "c:na") && ctl.log.has("update-exit", "c:nb") && ctl.log.has("update-exit", "c:nc")
+	})
+	out.record(fmt.Sprintf("raw-batch-nil/%t", nested), desc)
+	select {
+	case <-run.done:
+		out.fail(finding{Property: "C02", Class: "new", What: "a nil entry of a BatchMsg ended the program instead of being skipped", Input: desc, Expected: "still running", Observed: "Run returned " + errClass(run.err)})
+		return
+	default:
+	}
+	if !ok {
+		out.fail(finding{Property: "C02", Class: "new", What: "the commands next to a nil entry of a BatchMsg did not all deliver their results", Input: desc,
+			Expected: "na nb nc", Observed: strings.Join(updatesOf(ctl.log.snapshot()), " ")})
+	}
+	for k, id := range []string{"na", "nb", "nc"} {
+		if n := atomic.LoadInt32(&ran[k]); n != 1 {
+			out.fail(finding{Property: "C02", Class: "new", What: "command not invoked exactly once", Input: desc + " cmd=" + id, Expected: "1", Observed: fmt.Sprint(n)})
+		}
+		if n := ctl.log.count("update-enter", "c:"+id); n != 1 {
+			out.fail(finding{Property: "C02", Class: "new", What: "command result not delivered exactly once", Input: desc + " cmd=" + id, Expected: "1", Observed: fmt.Sprint(n)})
+		}
+	}
+	run.p.Quit()
+	if !run.wait(3 * time.Second) {
+		run.p.Kill()
+		run.wait(3 * time.Second)
+	}
+}
+
+// sendsAcrossExec: one goroutine keeps sending numbered messages while an Exec releases the
+// terminal, runs its command and takes the terminal back. With an input that cannot be cancelled
+// (or no input) the release waits 500 ms for the read loop: a long window in which Sends complete.
+// Every completed Send reaches Update, in order.
+func sendsAcrossExec(out *scenOut, input string) {
+	ctl := newRecCtl()
+	fe := &fakeExec{run: func(f *fakeExec) error { time.Sleep(20 * time.Millisecond); return nil }}
+	ctl.onUpdate = func(m tea.Msg, v int) tea.Cmd {
+		if u, ok := m.(userMsg); ok && u.Sender == 9 {
+			return tea.Exec(fe, func(err error) tea.Msg { return execDoneMsg{Tag: "x", Err: err} })
+		}
+		return nil
+	}
+	opts := []tea.ProgramOption{tea.WithoutSignalHandler()}
+	var cleanup func()
+	switch input {
+	case "nil":
+		opts = append(opts, tea.WithInput(nil))
+	case "blocking":
+		br := blockingReader{ch: make(chan struct{})}
+		cleanup = func() { close(br.ch) }
+		opts = append(opts, tea.WithInput(br))
+	}
+	run := startProgram(ctl, nil, opts...)
+	if cleanup != nil {
+		defer cleanup()
+	}
+	desc := "a goroutine sends numbered messages continuously while an Exec releases the terminal (500 ms wait for a read loop that cannot be cancelled), runs its command and restores; input=" + input
+	waitFor(2*time.Second, func() bool { return ctl.log.has("view-exit", "") })
+	var sent int32
+	stop := make(chan struct{})
+	senderDone := make(chan struct{})
+	go func() {
+		defer close(senderDone)
+		for k := 0; ; k++ {
+			select {
+			case <-stop:
+				return
+			default:
+			}
+			run.p.Send(userMsg{3, k})
+			atomic.StoreInt32(&sent, int32(k+1))
+			time.Sleep(2 * time.Millisecond)
+		}
+	}()
+	waitFor(time.Second, func() bool { return atomic.LoadInt32(&sent) >= 5 })
+	run.p.Send(userMsg{9, 0})
+	okCb := waitFor(4*time.Second, func() bool { return ctl.log.has("update-exit", "execdone:x") })
+	base := atomic.LoadInt32(&sent)
+	waitFor(time.Second, func() bool { return atomic.LoadInt32(&sent) >= base+5 })
+	close(stop)
+	<-senderDone
+	n := int(atomic.LoadInt32(&sent))
+	run.p.Send(userMsg{6, 6})
+	waitFor(2*time.Second, func() bool { return ctl.log.has("update-exit", "u6.6") })
+	run.p.Quit()
+	run.wait(4 * time.Second)
+	out.record("sends-across-exec/"+input, desc)
+	if !okCb {
+		return // (a C17 matter)
+	}
+	var got []string
+	for _, u := range updatesOf(ctl.log.snapshot()) {
+		if strings.HasPrefix(u, "u3.") {
+			got = append(got, u)
+		}
+	}
+	want := make([]string, n)
+	for k := range want {
+		want[k] = fmt.Sprintf("u3.%d", k)
+	}
+	if strings.Join(got, " ") != strings.Join(want, " ") {
+		miss := 0
+		seen := map[string]bool{}
+		for _, g := range got {
+			seen[g] = true
+		}
+		for _, w := range want {
+			if !seen[w] {
+				miss++
+			}
+		}
+		out.fail(finding{Property: "C01", Class: "new", What: "messages whose Send completed while an Exec released / restored the terminal did not all reach Update exactly once and in order", Input: desc,
+			Expected: fmt.Sprintf("u3.0 … u3.%d", n-1), Observed: fmt.Sprintf("%d of %d received, %d missing; first received: %s", len(got), n, miss, strings.Join(got[:min(len(got), 12)], " "))})
 	}
 }
